@@ -116,9 +116,11 @@ impl SampleIndex {
 
     // Returns `(samples, divisor)` such that `i / divisor` for `i in 0..universe` maps evenly to `0..samples`.
     fn parameters(values: usize, universe: usize) -> (usize, usize) {
+        // `bits::div_round_up` may overflow when the universe is close to `usize::MAX`.
+        let div_round_up = |value: usize, n: usize| value / n + (value % n != 0) as usize;
         let num_samples = bits::div_round_up(values, Self::RATIO);
-        let divisor = bits::div_round_up(universe, num_samples);
-        let num_samples = bits::div_round_up(universe, divisor);
+        let divisor = div_round_up(universe, num_samples);
+        let num_samples = div_round_up(universe, divisor);
         (num_samples, divisor)
     }
 }
